@@ -124,10 +124,18 @@ func (hs *clientHandshakeStateTLS13) decompressCert(m utlsCompressedCertificateM
 		return nil, fmt.Errorf("decompressed len (%d) does not match specified len (%d)", n, m.uncompressedLength)
 	}
 	var trailing [1]byte
-	if k, _ := io.ReadFull(decompressed, trailing[:]); k != 0 {
+	k, trailErr := io.ReadFull(decompressed, trailing[:])
+	if k != 0 {
 		// The stream decompresses to more than the declared length: same rule.
 		c.sendAlert(alertBadCertificate)
 		return nil, fmt.Errorf("decompressed message is longer than specified len (%d)", m.uncompressedLength)
+	}
+	if trailErr != nil && !errors.Is(trailErr, io.EOF) && !errors.Is(trailErr, io.ErrUnexpectedEOF) {
+		// The end of the stream is where a decoder checks the stream's own
+		// checksum (zlib Adler-32, zstd content checksum): the bytes delivered
+		// above are not what the peer compressed.
+		c.sendAlert(alertBadCertificate)
+		return nil, fmt.Errorf("compressed certificate stream is corrupt: %w", trailErr)
 	}
 	certMsg := new(certificateMsgTLS13)
 	if !certMsg.unmarshal(rawMsg) {
